@@ -125,7 +125,7 @@ fn eq_forms(a_u: &UnionCal, b_u: &UnionCal, a_c: Option<&Cal>, b_c: Option<&Cal>
     v
 }
 
-const N_EQ: u32 = 54;
+const N_EQ: u32 = 57;
 
 /// returns (description, expected equal?, comparisons)
 fn equality_scenario(id: u32) -> Option<(String, bool, Vec<(String, bool)>)> {
@@ -277,6 +277,21 @@ fn equality_scenario(id: u32) -> Option<(String, bool, Vec<(String, bool)>)> {
             let u2 = UnionCal::new(vec![c2.clone()], None);
             let un = UnionCal::new(vec![c.clone()], None);
             Some((format!("{} vs a plain Cal of the same days ({})", name, what), true, eq_forms(&un, &u2, Some(&c), Some(&c2), Some(&n), Some(&n))))
+        }
+        54..=56 => {
+            // the same closed days written as a week mask in one calendar and as a (long) holiday list in the other
+            let k = id - 54;
+            let (mask_a, listed): (Vec<u8>, Vec<u8>) = match k {
+                0 => (vec![], vec![5, 6]),  // nothing masked, every Saturday and Sunday listed
+                1 => (vec![6], vec![5]),    // Sunday masked, every Saturday listed
+                _ => (vec![5], vec![6]),
+            };
+            let hs: Vec<i64> = (days_from_civil(1969, 12, 1)..=days_from_civil(2201, 1, 31)).filter(|z| listed.contains(&(weekday(*z) as u8))).collect();
+            let c_listed = Cal::new(hs.iter().map(|z| to_ndt(*z)).collect(), mask_a);
+            let c_masked = Cal::new(vec![], vec![5, 6]);
+            let n = NamedCal::try_new("bus").unwrap();
+            let (ul, um) = (UnionCal::new(vec![c_listed.clone()], None), UnionCal::new(vec![c_masked.clone()], None));
+            Some((format!("weekend written as {} listed holidays vs as a week mask", hs.len()), true, eq_forms(&um, &ul, Some(&c_masked), Some(&c_listed), Some(&n), Some(&n))))
         }
         _ => None,
     }
@@ -568,7 +583,7 @@ pub fn run(ctx: &Ctx, replay_file: Option<String>) -> ! {
          single built-in calendars on is_bus_day and is_settlement for EVERY date 1970-2200. (c) every token string of \
          length <= 5 (6) over {tgt, ldn, zzz, ',', '|'}: accepted iff list('|' list)? with known non-empty names; \
          never a panic. (d) equality scenarios across Cal / UnionCal / NamedCal in both argument orders: same \
-         behaviour built differently is equal (incl. tgt, ldn, nyc, bus against a plain Cal of the same days with weekend-dated holidays dropped, out-of-range holidays added, or every holiday listed twice); one business-day or settlement bit of difference at 1970-01-01, \
+         behaviour built differently is equal (incl. tgt, ldn, nyc, bus against a plain Cal of the same days with weekend-dated holidays dropped, out-of-range holidays added, or every holiday listed twice; a weekend written as 12 000 / 24 000 listed holidays against the same weekend as a week mask); one business-day or settlement bit of difference at 1970-01-01, \
          1970-01-02, 2015-09-08, 2200-12-30, 2200-12-31 is unequal; a difference only at 1969-12-31 or 2201-01-01 is \
          equal; a one-day difference at Jan 1, Feb 28/29, Mar 1, Dec 30, Dec 31 of EVERY year 1970-2200 (thorough: at every \
          day of every fourth year) is unequal. Non-trivial: unions whose members disagree on some date, names with >= 2 parts, rejected strings.",
